@@ -86,7 +86,43 @@ func newDescriber(e *Engine, fn *ssa.Function, bind []*Node) *describer {
 			}
 		}
 	}
+	// number syntactically identical calls in program order, so that
+	// "HasQuorum before" and "HasQuorum after" stay distinguishable
+	seen := map[string]int{}
+	for _, b := range fn.Blocks {
+		for _, in := range b.Instrs {
+			if c, ok := in.(*ssa.Call); ok {
+				n := d.D(c)
+				if n.K != "call" {
+					continue
+				}
+				base := n.String()
+				seen[base]++
+				if seen[base] > 1 {
+					n.Ord = seen[base]
+					n.s = ""
+				}
+			}
+		}
+	}
+	if len(seen) > 0 {
+		// renderings of dependants were cached with the un-numbered form
+		for _, n := range d.memo {
+			clearCache(n, map[*Node]bool{})
+		}
+	}
 	return d
+}
+
+func clearCache(n *Node, done map[*Node]bool) {
+	if n == nil || done[n] {
+		return
+	}
+	done[n] = true
+	n.s = ""
+	for _, k := range n.A {
+		clearCache(k, done)
+	}
 }
 
 func constText(c *ssa.Const) string {
@@ -217,6 +253,9 @@ func (d *describer) describe(v ssa.Value) *Node {
 		}
 		if st := d.soleStore(v); st != nil {
 			return d.D(st.Val)
+		}
+		if src := d.soleCopy(v); src != nil {
+			return mk("conv", "copy", d.D(src))
 		}
 		return mk("local", name)
 	case *ssa.IndexAddr:
@@ -364,6 +403,9 @@ func (d *describer) call(c *ssa.CallCommon) *Node {
 	}
 	switch f := c.Value.(type) {
 	case *ssa.Function:
+		if acc := d.eng.accessor(f); acc != nil {
+			return acc.Subst(args)
+		}
 		n := mk("call", SSAFuncName(f), args...)
 		n.Fn = f
 		return n
@@ -474,4 +516,98 @@ func (d *describer) soleStore(al *ssa.Alloc) *ssa.Store {
 		}
 	}
 	return st
+}
+
+// Call describes a call instruction's callee and arguments.
+func (d *describer) Call(c ssa.CallInstruction) *Node {
+	if v, ok := c.(*ssa.Call); ok {
+		return d.D(v)
+	}
+	return d.call(c.Common())
+}
+
+// Describer is the exported view of the per-function value describer.
+type Describer = describer
+
+// accessor: a function whose whole body is "return <field path over its
+// parameters>" (GetState, GetShare, GetBaseRunner, GetHeight …) is
+// transparent: calls to it are described by the path itself, so that two
+// calls of the same getter denote the same thing.
+func (e *Engine) accessor(f *ssa.Function) *Node {
+	if e == nil {
+		return nil
+	}
+	if n, ok := e.acc[f]; ok {
+		return n
+	}
+	e.acc[f] = nil
+	if !e.canExpand(f) || len(f.Blocks) != 1 || f.Signature.Results().Len() != 1 || len(f.FreeVars) > 0 {
+		return nil
+	}
+	var ret *ssa.Return
+	for _, in := range f.Blocks[0].Instrs {
+		switch x := in.(type) {
+		case *ssa.FieldAddr, *ssa.Field, *ssa.DebugRef:
+		case *ssa.UnOp:
+			if x.Op != token.MUL {
+				return nil
+			}
+		case *ssa.Return:
+			ret = x
+		default:
+			return nil
+		}
+	}
+	if ret == nil || len(ret.Results) != 1 {
+		return nil
+	}
+	if _, isConst := ret.Results[0].(*ssa.Const); isConst {
+		return nil
+	}
+	d := newDescriber(nil, f, nil)
+	n := d.D(ret.Results[0])
+	ok := true
+	n.Walk(func(m *Node) {
+		if m.K != "field" && m.K != "param" {
+			ok = false
+		}
+	})
+	if !ok {
+		return nil
+	}
+	e.acc[f] = n
+	return n
+}
+
+// soleCopy: a zero-initialised array local whose only write is one
+// copy(local[:], src) — the idiom "sig := BLSSignature{}; copy(sig[:], b)".
+func (d *describer) soleCopy(al *ssa.Alloc) ssa.Value {
+	if al.Referrers() == nil {
+		return nil
+	}
+	for _, st := range d.store[al] {
+		if c, ok := st.Val.(*ssa.Const); !ok || c.Value != nil {
+			return nil
+		}
+	}
+	var src ssa.Value
+	n := 0
+	for _, r := range *al.Referrers() {
+		sl, ok := r.(*ssa.Slice)
+		if !ok || sl.Referrers() == nil {
+			continue
+		}
+		for _, u := range *sl.Referrers() {
+			if c, ok := u.(*ssa.Call); ok {
+				if b, ok := c.Call.Value.(*ssa.Builtin); ok && b.Name() == "copy" && len(c.Call.Args) == 2 && c.Call.Args[0] == ssa.Value(sl) {
+					src = c.Call.Args[1]
+					n++
+				}
+			}
+		}
+	}
+	if n == 1 {
+		return src
+	}
+	return nil
 }
